@@ -168,6 +168,42 @@ def C09(rep, prog, tier):
         rep.only = None
 
 
+def C12(rep, prog, tier):
+    rep.explanation = ("C12 (keys and non-interference): KEY.no-reserved (the query is never stored under a literal key of a mapping "
+                       "keyed by the base's keys), KEY.no-positional (no running position indexes a key-indexed mapping; name families "
+                       "eta_/mv_/mf_ uniformly qualified), NONINTERF (text, name, signature never reach a decision or an answer). "
+                       "Invariance under reordering, renaming and equivalent rewriting is semantic and not decided")
+    ex = Explorer(prog, rep)
+    table = wrappers.dispatch(rep, ex, report=False)
+    keep = {"KEY.no-reserved", "KEY.no-positional", "NONINTERF", "W.query-slot", "LEX.query-slot"}
+    rep.only = keep
+    try:
+        cls = _class_of(table, ("p-entailment", None))
+        if cls:
+            pent.check(rep, ex, cls, strict=True, extended=True, keys=True)
+            wrappers.noninterference(rep, ex, f"{cls}._inference", ex.cache.get((f"{cls}._inference", "pent"), []))
+        cls = _class_of(table, ("system-z", None))
+        if cls:
+            site, paths = sysz.inference_entry(rep, ex, cls)
+            wrappers.noninterference(rep, ex, site, paths)
+        for key, name, lex in ((("system-w", False), "rc2", False), (("system-w", True), "z3", False),
+                               (("lex_inf", False), "rc2", True), (("lex_inf", True), "z3", True)):
+            cls = _class_of(table, key)
+            if cls:
+                be = mcsops.Backend(name, cls, lex=lex)
+                site, paths = mcsops.w_entry(rep, ex, be, strict=True, extended=True, prefix="LEX" if lex else "W", keys=True, n_objects=2 if lex else 1)
+                wrappers.noninterference(rep, ex, site, paths)
+        cls = _class_of(table, ("c-inference", None))
+        if cls:
+            cinf.key_discipline(rep, ex, cls)
+            cinf.encoding_relation(rep, ex, cls)
+            cinf.query_names(rep, ex, cls)
+            cinf.answer(rep, ex, cls)
+            wrappers.noninterference(rep, ex, f"inference/c_inference.py:{cls.rsplit('.', 1)[1]}._inference", ex.cache.get((f"{cls}._inference", "cinf"), []))
+    finally:
+        rep.only = None
+
+
 def C14(rep, prog, tier):
     rep.explanation = ("C14: CHECK.three-way (a z3 check() result reaches model() only when it is sat; `unknown` ends in a flagged "
                        "expiry) on the optimizer loops of both z3 operators, TIMEOUT.flow (no handler between the raise sites and the "
@@ -232,4 +268,4 @@ def C06(rep, prog, tier):
     wrappers.shortcut_dominance(rep, ex)
 
 
-CHECKS = {"C01": C01, "C02": C02, "C03": C03, "C04": C04, "C05": C05, "C06": C06, "C07": C07, "C09": C09, "C11": C11, "C14": C14, "C15": C15}
+CHECKS = {"C01": C01, "C02": C02, "C03": C03, "C04": C04, "C05": C05, "C06": C06, "C07": C07, "C09": C09, "C11": C11, "C12": C12, "C14": C14, "C15": C15}
